@@ -56,7 +56,7 @@ Init == /\ lock = FALSE /\ clock = 1 /\ log = <<>>
 Did(r) == sched' = Append(sched, r)
 
 \* intended: atomic test-and-set
-TryLock(r) == /\ pc[r] = "try"
+TryLock(r) == /\ pc[r] = "try" /\ Kind[r] # "save"
               /\ IF lock THEN pc' = [pc EXCEPT ![r] = "refused"] /\ UNCHANGED <<lock, holds>>
                          ELSE lock' = TRUE /\ holds' = [holds EXCEPT ![r] = TRUE] /\ pc' = [pc EXCEPT ![r] = AfterLock(r)]
               /\ UNCHANGED <<clock, log, loc, got, left>> /\ Did(r)
@@ -64,8 +64,13 @@ TryLock(r) == /\ pc[r] = "try"
 Early(r) == /\ Err(r) /\ pc[r] \in {"try", "check"}
             /\ pc' = [pc EXCEPT ![r] = "done"]
             /\ UNCHANGED <<lock, clock, log, loc, got, left, holds>> /\ Did(r)
+\* GET /save-state arriving while stepping requests are in progress: it externalises every instance and touches neither the
+\* lock nor the clock of the live session
+SaveReq(r) == /\ Kind[r] = "save" /\ pc[r] \in {"try", "check"}
+              /\ pc' = [pc EXCEPT ![r] = "done"]
+              /\ UNCHANGED <<lock, clock, log, loc, got, left, holds>> /\ Did(r)
 \* deviation: check now, lock later (or never, for run-step)
-Check(r) == /\ pc[r] = "check"
+Check(r) == /\ pc[r] = "check" /\ Kind[r] # "save"
             /\ pc' = [pc EXCEPT ![r] = IF lock THEN "refused" ELSE IF Locks(r) THEN "take" ELSE "read"]
             /\ UNCHANGED <<lock, clock, log, loc, got, left, holds>> /\ Did(r)
 Take(r) == /\ pc[r] = "take" /\ lock' = TRUE /\ holds' = [holds EXCEPT ![r] = TRUE]
@@ -95,7 +100,7 @@ Unlock(r) == /\ pc[r] = "unlock"
              /\ pc' = [pc EXCEPT ![r] = "done"]
              /\ UNCHANGED <<clock, log, loc, got, left>> /\ Did(r)
 
-Step(r) == TryLock(r) \/ Early(r) \/ Check(r) \/ Take(r) \/ Read(r) \/ Write(r) \/ Unlock(r)
+Step(r) == TryLock(r) \/ SaveReq(r) \/ Early(r) \/ Check(r) \/ Take(r) \/ Read(r) \/ Write(r) \/ Unlock(r)
 Next == \E r \in Reqs : Step(r)
 Spec == Init /\ [][Next]_vars
 
